@@ -196,7 +196,19 @@ func (c *cluster) onAdminTaskDone(pt *pendingTask, err error, res interface{}) {
 		} else {
 			c.stats.class("snap-err")
 		}
+	case "wait":
+		if err == nil {
+			c.stats.class("waitstable-ok")
+			if cfg, ok := res.(Config); ok && !cfg.isStable() {
+				c.fail("config-safety", "waitstable-unstable", "WaitForStableConfig on node %d returned a configuration with pending actions: %v", pt.nid, cfg)
+			}
+		} else {
+			c.stats.class("waitstable-err")
+		}
 	case "cfg":
+		if err == nil && pt.cfgInvalid != "" {
+			c.fail("config-safety", "invalid-config-accepted", "node %d accepted a membership request it has to refuse (%s): %v", pt.nid, pt.cfgInvalid, pt.cfgNew)
+		}
 		if err == nil {
 			c.stats.class("cfg-ok")
 			if n := c.nodes[pt.nid]; n != nil && n.status == nodeUp && n.inc == pt.inc && n.sh.xferPrev && n.sh.xferNow && pt.submit == c.stepNo {
